@@ -1,11 +1,14 @@
 (* C10 - property theorems only.  Each is closed by [exact]; see C10/Proofs.v,
-   C10/Floats.v, C10/ApolloProofs.v.  C10 is claimed as proof, PARTIAL: the
-   pyparsing grammar (printed text -> rows) and h5py/HDF5 (file -> tree) are
-   bound to these models by the per-run correspondence only. *)
+   C10/Floats.v, C10/ApolloProofs.v, C10/TextProofs.v.  C10 is claimed as proof,
+   PARTIAL: the text level is a theorem about the model printer and the model
+   parser of C10/Text.v (the layouts the generator assembles); pyparsing itself,
+   float() of a numeral and h5py/HDF5 (file -> tree) are bound to these models
+   by the per-run correspondence only. *)
 From Coq Require Import List Bool Arith ZArith Reals.
 From Flocq Require Import Core.Core IEEE754.BinarySingleNaN.
 From VV Require Import Lib.B64 C10.Model C10.Proofs C10.Floats C10.Apollo C10.ApolloProofs C10.Check.
 From VV Require C11.Pystr C11.Model C11.Proofs.
+From VV Require Import C10.Text C10.TextProofs C10.TextCheck.
 Import ListNotations.
 
 (* one axis, rows "a - b" that follow each other, printed in either order: after
@@ -124,3 +127,69 @@ Theorem C10_scan_blocks_keyed_by_batch :
              C11.Model.od_get Z.eqb (C11.Model.s_coll s') bn = Some (t0 :: map fst body ++ [te]).
 Proof. exact @C11.Proofs.scan_blocks_keyed_by_batch. Qed.
 Print Assumptions C10_scan_blocks_keyed_by_batch.
+
+(* ---- text level ---- *)
+
+(* the model parser reads back every well-formed document of the generator's
+   layouts from the text the model printer prints for it (any number of
+   responses, zones, time steps, groups; either printing order; NOT YET
+   CONVERGED steps; generic responses; keff block) *)
+Theorem C10_parse_print :
+  forall d : doc_block, wf_doc d -> parse_block (print_block d) = Some (rows_of d).
+Proof. exact parse_print. Qed.
+Print Assumptions C10_parse_print.
+
+(* from the printed TEXT to the datasets.  [num] stands for float() (any
+   function); the order is numpy's "<" on binary64.  For every well-formed
+   document whose groups and time steps are printed consistently (zone_ordered),
+   the model pipeline run on what the model parser reads from the printed text
+   gives, for every scoring zone: strictly increasing energy (and time) bins,
+   and for every printed time step a position j in the time bins delimited by
+   the printed time min/max, holding its energy-integrated result, and for every
+   printed group of that step a position i such that the dataset holds at
+   [j][i] the printed score as value and (sigma * score) * 0.01 as error, and
+   the energy bins i, i+1 are the two printed bounds of that group *)
+(* the same for any reading [num] of numerals into any ordered type and any
+   conversion [conv] of a (score, sigma) cell: closed under the global context *)
+Theorem C10_text_to_cells :
+  forall (B D : Type) (num : C11.Pystr.str -> B) (ltb : B -> B -> bool) (conv : B * B -> D),
+  (forall x y, ltb x y = true -> ltb y x = false) ->
+  forall d : doc_block, wf_doc d ->
+  (forall rz, In rz (zones_of d) -> zone_ordered num ltb (snd rz)) ->
+  exists r, parse_block (print_block d) = Some r /\ r = rows_of d /\
+  forall rz, In rz (zones_of r) ->
+    let z := snd rz in
+    let p := text_plane num ltb z in
+    let dataset := map (map conv) (p_vals p) in
+    adjacent_lt ltb (p_ebins p) /\ (with_time z = true -> adjacent_lt ltb (p_tbins p)) /\
+    forall s, In s (z_steps z) -> exists j,
+      printed_time num z s (p_tbins p) j /\
+      nth_error (p_integ p) j = Some (option_map (ncell num) (integ_of (s_integ s))) /\
+      exists drow, nth_error dataset j = Some drow /\
+        forall r, In r (s_rows s) -> exists i,
+          nth_error drow i = Some (conv (num (r_score r), num (r_sigma r))) /\
+          ((nth_error (p_ebins p) i = Some (num (r_a r)) /\ nth_error (p_ebins p) (S i) = Some (num (r_b r))) \/
+           (nth_error (p_ebins p) i = Some (num (r_b r)) /\ nth_error (p_ebins p) (S i) = Some (num (r_a r)))).
+Proof. exact @text_to_dataset_gen. Qed.
+Print Assumptions C10_text_to_cells.
+
+Theorem C10_text_to_dataset :
+  forall (num : C11.Pystr.str -> b64) (d : doc_block), wf_doc d ->
+  (forall rz, In rz (zones_of d) -> zone_ordered num flt (snd rz)) ->
+  exists r, parse_block (print_block d) = Some r /\ r = rows_of d /\
+  forall rz, In rz (zones_of r) ->
+    let z := snd rz in
+    let p := text_plane num flt z in
+    let dataset := map (map convert) (p_vals p) in
+    adjacent_lt flt (p_ebins p) /\ (with_time z = true -> adjacent_lt flt (p_tbins p)) /\
+    forall s, In s (z_steps z) -> exists j,
+      printed_time num z s (p_tbins p) j /\
+      nth_error (p_integ p) j = Some (option_map (ncell num) (integ_of (s_integ s))) /\
+      exists drow, nth_error dataset j = Some drow /\
+        forall r, In r (s_rows s) -> exists i,
+          nth_error drow i
+          = Some (num (r_score r), fmul (fmul (num (r_sigma r)) (num (r_score r))) c001) /\
+          ((nth_error (p_ebins p) i = Some (num (r_a r)) /\ nth_error (p_ebins p) (S i) = Some (num (r_b r))) \/
+           (nth_error (p_ebins p) i = Some (num (r_b r)) /\ nth_error (p_ebins p) (S i) = Some (num (r_a r)))).
+Proof. exact text_to_dataset. Qed.
+Print Assumptions C10_text_to_dataset.
